@@ -236,6 +236,7 @@ type Scenario struct {
 	CropParamYml bool
 	VirtualDate  string
 
+	Tightened  bool // C16: rewritten around the observed first harvest (see c16Scenario)
 	DailyCols  []OutCol
 	OutStyle   OutStyle
 	YearlyCols []OutCol
@@ -1493,7 +1494,11 @@ func genAuto(sc *Scenario, r *Rng) {
 		tl = append(tl, t)
 	}
 	sc.Till = tl
-	// the table as text
+	sc.rebuildAutoman()
+}
+
+// rebuildAutoman renders the automatic-management table from the rows
+func (sc *Scenario) rebuildAutoman() {
 	sc.Automan = nil
 	for _, ct := range cropTable {
 		if a, ok := sc.AutoRows[ct.Code]; ok {
